@@ -91,6 +91,10 @@ func S1a(tier string, fees bool) *Scenario {
 			}
 		}
 	}
+	if tier == "thorough" {
+		// a creation that leaves the start time out (valid: the auction opens at once)
+		al.Creates = append(al.Creates, Op{Kind: "create_fixed", Signer: "auc1", StartPrice: "3", Sell: "10acoin", PayDenom: "bcoin", ZeroStart: true, EndK: 2, Sched: sched(3, 4)})
+	}
 	// creation messages that must be rejected (one cheap rejected op per state on a correct tree; if one
 	// of them is ever accepted, the histories behind it are explored like any other)
 	al.Creates = append(al.Creates,
@@ -729,4 +733,13 @@ func S10p() *Scenario {
 	}
 	bud := Budget{"bid": 1, "block": 3, "params": 2, "tick": 1}
 	return scenFrom("S10p-extreme-params", cfg, pre, bud, al, nil)
+}
+
+// S1f: fees charged in the SELLING denomination (the auctioneer pays the creation fee and escrows the
+// offered amount in one denom; bidders pay a fee in a denom they also receive).
+func S1f(tier string) *Scenario {
+	s := S1a(tier, true)
+	s.Cfg.Params = params("2acoin", "1acoin", 1)
+	s.Name = "S1f-fixed-lifecycle-fee-in-selling-denom"
+	return s
 }
